@@ -44,9 +44,6 @@ type syncCase struct {
 	idx      int
 	staleHit []bool
 	lost     []bool
-	// see storeCase.reAppended
-	discarded  []bool
-	reAppended []bool
 }
 
 func (sc *syncCase) find(text string) {
@@ -228,9 +225,6 @@ func (sc *syncCase) deliver(i int, b []byte, what string) int {
 		sc.find(fmt.Sprintf("rejected delivery changed replica %d state", i))
 	}
 	sc.checkReplica(i)
-	if cls == 0 && sc.discarded[i] {
-		sc.reAppended[i] = true
-	}
 	if cls == 0 && what == "next" && !wasDiverged && sc.diverged[i] {
 		zero := make([]byte, 32)
 		if hdr.BlTxId == 0 && string(hdr.BlRoot) != string(zero) {
@@ -268,9 +262,6 @@ func (sc *syncCase) discard(i int, t uint64) {
 	if after.cid != before.cid {
 		sc.find(fmt.Sprintf("DiscardPrecommittedTxsSince(%d) changed the committed id of replica %d", t, i))
 	}
-	if cls == 0 && after.pid < before.pid {
-		sc.discarded[i] = true
-	}
 	sc.checkReplica(i)
 }
 
@@ -288,10 +279,6 @@ func (sc *syncCase) restart(i int) error {
 	sc.stats["restart"]++
 	sc.restarts[i]++
 	sc.checkReplica(i)
-	if sc.reAppended[i] {
-		sc.lost[i] = true
-	}
-	sc.discarded[i] = false
 	return nil
 }
 
@@ -352,8 +339,6 @@ func runSyncCase(r *vk.Run, idx int) error {
 	}
 	sc.restarts = make([]int, sc.nrep)
 	sc.staleHit = make([]bool, sc.nrep)
-	sc.discarded = make([]bool, sc.nrep)
-	sc.reAppended = make([]bool, sc.nrep)
 	sc.lost = make([]bool, sc.nrep)
 	sc.acked = make([]uint64, sc.nrep)
 	sc.diverged = make([]bool, sc.nrep)
